@@ -48,7 +48,7 @@ def fusion_table(code):
     """R = {(a, b, c)}: some standard spelling of c consists of exactly the number words of a followed by those of b"""
     L = LANGS[code]
     src = open(os.path.join(VERIF, 'oracle', 'langs.py'), 'rb').read() + open(os.path.join(VERIF, 'oracle', 'en.py'), 'rb').read()
-    key = hashlib.sha256(src).hexdigest()[:16]
+    key = hashlib.sha256(src + open(__file__, 'rb').read()).hexdigest()[:16]
     path = os.path.join(VERIF, '.cache', 'fusion-%s-%s.json' % (code, key))
     if os.path.exists(path):
         return [tuple(x) for x in json.load(open(path))]
@@ -70,6 +70,17 @@ def fusion_table(code):
                         for b in range(1, 100):
                             if suf in small[b]:
                                 R.add((a, b, c))
+    # compound languages write tens-units (and German/Dutch teens) as one word made of exactly the two number words
+    if code in ('de', 'nl'):
+        for t in range(2, 10):
+            for u in range(1, 10):
+                R.add((u, 10 * t, 10 * t + u))
+        for u in range(3, 10):
+            R.add((u, 10, 10 + u))
+    if code == 'it':
+        for t in range(2, 10):
+            for u in range(1, 10):
+                R.add((10 * t, u, 10 * t + u))
     os.makedirs(os.path.dirname(path), exist_ok=True)
     json.dump(sorted(R), open(path, 'w'))
     return sorted(R)
@@ -154,9 +165,21 @@ def pairs(ck, code, L):
             ok_ = True
         if a == 0 and not conj and texts == ['0' + str(b)]:
             ok_ = True
-        return {'key': {'lang': code, 'kind': 'fusion', 'a': a, 'b': b}, 'reproduced': not ok_, 'replay': rep,
+        bw = [w for w in concrete_phrase(sb, m)]
+        flatb = []
+        for w_ in bw:
+            flatb.extend(w_.split('-') if code in ('en', 'fr') else [w_])
+        units = set(x for x in (getattr(L, 'UNITS', []) or []) if x)
+        role = 'conj-then-unit-led-number' if conj and len(flatb) > 1 and flatb[0] in units else 'fusion'
+        return {'key': {'lang': code, 'kind': 'fusion', 'a': a, 'b': b, 'role': role}, 'reproduced': not ok_, 'replay': rep,
                 'what': '%s: %r (a=%d, b=%d) is rewritten as %r' % (code, ''.join(t.text for t in toks), a, b, texts)}
-    ck.prove_none('%s:pairs' % code, assm, bad, on_cex, lambda m, c: None)
+    def block(m, cex):
+        if cex['key'].get('role') == 'conj-then-unit-led-number':
+            # exclude exactly that role: the conjunction followed by a multi-word number whose first word is a unit
+            multi_unit_led = z3.Or(z3.And(db.D[1] == 8, True), db.D[1] == 9) if code == 'fr' else z3.BoolVal(False)
+            return z3.Not(z3.And(use_conj, multi_unit_led))
+        return None
+    ck.prove_none('%s:pairs' % code, assm, bad, on_cex, block)
     ck.cover('%s:pairs:kept-apart' % code, assm + [z3.Or(*[z3.And(pc(r), B64(r.ret.len) == 2) for r in res])],
              lambda m: {'lang': code, 'tokens': [t.text for t in concrete_tokens(tslots, m)]})
     ck.cover('%s:pairs:fused' % code, assm + [z3.Or(*[z3.And(pc(r), B64(r.ret.len) == 1) for r in res]), z3.Not(da.is_zero())],
